@@ -150,6 +150,14 @@ func runC32(c *eng.Ctx) {
 		return true
 	})
 	c.Check("R4", bq.Where(), "the bucket holding the rank is the first whose cumulative count reaches it (count ≥ rank)", pred == "-1*buckets[i].Count +1*rank <= 0", p.Pos(bq.Body.Pos()), pred)
+	// ---- R5 (added for seed C32-a) the rank walk looks at populated buckets only ----
+	hq.AstEvery("R5", "bucket walk that stops when the cumulative count reaches the rank", func(n ast.Node) bool {
+		fs, ok := n.(*ast.ForStmt)
+		return ok && fs.Cond != nil && nodeText(fs.Cond) == "it.Next()" && strings.Contains(nodeText(fs.Body), "count >= rank")
+	}, "skips empty buckets before it tests the rank (a rank of 0 must not stop in an empty bucket)", func(n ast.Node) bool {
+		b := n.(*ast.ForStmt).Body.List
+		return len(b) >= 3 && nodeText(b[0]) == "bucket = it.At()" && nodeText(b[1]) == "if bucket.Count == 0 { continue }"
+	}, 1)
 }
 
 type c32dom struct{ cond, ret string }
